@@ -304,6 +304,14 @@ def to_spec(d, _validated=False):
     elif t == 'pobject':
       s = T.Object(classes.CLASSES[d['cls']])
     elif t == 'union':
+      if d.get('noneable') and d.get('ctor_noneable'):
+        # the other public way of making a union accept None
+        return_early = T.Union([to_spec(c) for c in d['cands']], is_noneable=True)
+        if 'default' in d:
+          return_early = return_early.set_default(default_of(d))
+          if is_frozen(d):
+            return_early = return_early.freeze()
+        return return_early
       s = T.Union([to_spec(c) for c in d['cands']])
     elif t == 'any':
       s = T.Any()
